@@ -34,6 +34,7 @@ func TestWorker(t *testing.T) {
 		"C21/spao":       runSPAO,
 		"C44/dispatcher": runDispatcher,
 		"C17/config":     runConfig,
+		"C17/sockets":    runSockets,
 		"C22/paths":      runPaths,
 		"C28/combine":    runCombine,
 		"C29/combine":    runCombine,
